@@ -683,6 +683,12 @@ func buildRoutingKernspace(
 		}
 	}
 
+	// verif: hand the prepared LPM results to the test sink instead of the kernel.
+	var verifSavedResults []lpmMapResult
+	if verifEnabled && verifKernspaceSinkActive() {
+		verifSavedResults, results = results, nil
+	}
+
 	// Create and update LPM maps in parallel
 	if numWorkers > 1 && len(results) > 1 {
 		// Parallel path
@@ -753,6 +759,9 @@ func buildRoutingKernspace(
 	kernRules, err := rewriteKernRulesWithRingLpmIndex(rules, allocStartIdx, lpmCount)
 	if err != nil {
 		return nil, err
+	}
+	if verifEnabled && verifKernspaceSinkActive() {
+		return verifKernspaceSinkDeliver(verifSavedResults, kernRules, routingsLen)
 	}
 	routingsKeys := common.ARangeU32(routingsLen)
 	if _, err = BpfMapBatchUpdate(bpf.RoutingMap, routingsKeys, kernRules, &ebpf.BatchOptions{
